@@ -1,7 +1,7 @@
 #!/bin/bash
 # run_all.sh <tier> [props...]: runs the checks one after the other, prints one line per check
 tier=${1:-quick}; shift
-props=${@:-C01 C02 C03 C04 C05 C06 C07 C08 C09 C10 C11 C12 C13 C14 C15 C17 C18 C19 C20}
+props=${@:-C01 C02 C03 C04 C05 C06 C07 C08 C09 C10 C11 C12 C13 C14 C15 C16 C17 C18 C19 C20}
 cd "$(dirname "$0")"
 for p in $props; do
   s=$(date +%s)
